@@ -667,7 +667,19 @@ func (g *G) Query() *Query {
 		q.Limit = &l
 	}
 	q.Reverse = g.pct("reverse") < 30
-	q.Consumer = pickU(g, []string{"collect", "collect", "assign", "one", "assignone"}, "consumer")
+	q.Consumer = pickU(g, []string{"collect", "collect", "collect", "assign", "assign", "one", "assignone", "expects", "expectszn", "assignunique"}, "consumer")
+	if q.Consumer == "expects" || q.Consumer == "expectszn" {
+		q.Expect = pickU(g, []int{0, 0, 1, -1, 1000}, "expectdelta")
+	}
+	for i := 1; i < len(q.Leaves); i++ {
+		if g.pct("via") < 25 {
+			if q.Leaves[i].Conn == "or" {
+				q.Leaves[i].Via = pickU(g, []string{"or", "||", "OR", "Or"}, "viaor")
+			} else {
+				q.Leaves[i].Via = pickU(g, []string{"and", "&&", "AND", "And"}, "viaand")
+			}
+		}
+	}
 	return q
 }
 
@@ -760,10 +772,13 @@ func (g *G) Op() Op {
 	case "bulk":
 		op.Items = g.Items(8)
 		op.CSize = g.uni(6, "csize")
+	case "deleteAll":
+		op.Ref = g.uni(64, "ref")
 	case "searchDelete":
 		q := g.Query()
 		q.Limit, q.Reverse, q.Consumer = nil, false, ""
 		op.Q = q
+		op.Ref = g.uni(64, "ref")
 	case "query":
 		op.Q = g.Query()
 	case "insertBad", "updateBad", "manyBad":
